@@ -561,7 +561,7 @@ func checkVersion(r *harness.Run, version string) []string {
 func main() { harness.Main("C17", "model_checking", run) }
 
 func run(r *harness.Run) {
-	r.Rule("(a) every string of length <= L over a 17-symbol identifier alphabet, plus every string of length <= L2 over {: f 0 . 1 [ ]} and a long-tail list (length limits, ports, 43-character IDs), through 7 parser entry points vs grammar recognisers; (b) every byte string of length <= B and every string of length <= 4 over a 12-symbol base64 alphabet; (c) events with each of type/state_key/sender/room_id in 8 size shapes (singles and all pairs) and JSON of 65535/65536/65537 bytes, on receipt and on build, all 16 versions; (d) the 16-row version table through getters and behavioural probes of every function-valued column. Non-trivial = distinct accepted identifier / distinct refused size class / version row fully matching.")
+	r.Rule("(a) every string of length <= L over a 17-symbol identifier alphabet, plus every string of length <= L2 over {: f 0 . 1 [ ]} and a long-tail list (length limits, ports) plus every single-byte substitution / insertion / deletion and every pair of skip-byte insertions around valid 43-character IDs, through 7 parser entry points vs grammar recognisers; (b) every byte string of length <= B and every string of length <= 4 over a 12-symbol base64 alphabet; (c) events with each of type/state_key/sender/room_id in 8 size shapes (singles and all pairs) and JSON of 65535/65536/65537 bytes, on receipt and on build, all 16 versions; (d) the 16-row version table through getters and behavioural probes of every function-valued column. Non-trivial = distinct accepted identifier / distinct refused size class / version row fully matching.")
 	r.Assume("net/netip decides IPv6 literal validity", "historical user IDs: the library documents that it does not enforce the historical character range; the reference follows that", "room-ID length is only limited where events are checked (255), as the code documents; ports may have any number of digits as long as the value is <= 65535 (the property states only the value bound)")
 	r.OnReplay("id", func(raw json.RawMessage) error {
 		var c idCase
@@ -680,12 +680,40 @@ func run(r *harness.Run) {
 		"!" + b43, "!" + b43 + "A", "!" + b43[:42], "!" + b43[:42] + "+", "!" + b43[:42] + "/", "!" + b43[:42] + "=", "!" + b43[:42] + ":", "!" + b43 + ":a", "!:", "!a:", "!:b", "!a:b c", "!a:[::1", "!", "!a", "!a:b", "!" + x(300) + ":a", "!a:b:c:d", "!a:b:80",
 		"$a:b", "$" + b43, "$", "$:", "",
 	}
-	for _, s := range tail {
-		for _, p := range parsers {
-			c := idCase{p, s}
-			idViol(c, checkID(r, c))
+	// 43-character (domainless) room IDs and event IDs cannot be reached by short-string enumeration: every single-byte
+	// substitution, insertion (all 256 byte values) and deletion around a valid one, and every pair of insertions from
+	// a menu of bytes that lenient decoders skip
+	for _, sig := range []string{"!", "$"} {
+		tmpl := sig + b43
+		for i := 0; i <= len(tmpl); i++ {
+			for b := 0; b < 256; b++ {
+				tail = append(tail, tmpl[:i]+string([]byte{byte(b)})+tmpl[i:])
+				if i < len(tmpl) {
+					tail = append(tail, tmpl[:i]+string([]byte{byte(b)})+tmpl[i+1:])
+				}
+			}
+			if i < len(tmpl) {
+				tail = append(tail, tmpl[:i]+tmpl[i+1:])
+			}
+		}
+		skip := []string{"\n", "\r", " ", "=", "\t", "A"}
+		for i := 1; i <= len(tmpl); i++ {
+			for j := i; j <= len(tmpl); j++ {
+				for _, a := range skip {
+					for _, b := range skip {
+						tail = append(tail, tmpl[:i]+a+tmpl[i:j]+b+tmpl[j:])
+					}
+				}
+			}
 		}
 	}
+	r.Count("long_tail_identifiers", int64(len(tail)))
+	r.Parallel(len(tail), func(i int) {
+		for _, p := range parsers {
+			c := idCase{p, tail[i]}
+			idViol(c, checkID(r, c))
+		}
+	})
 	r.Sample("identifier", idCase{"server", "::ffff:0:0"})
 	r.Sample("identifier", idCase{"user-historical", "@:ab"})
 	r.Sample("identifier", idCase{"room", "!" + b43})
